@@ -57,7 +57,11 @@ def _one(nodes, what):
 
 
 def simple_search(tree):
-    fn = find_def(tree, 'SearchTask._simple_search')
+    try:
+        fn = find_def(tree, 'SearchTask._simple_search')
+    except Untranslatable:
+        # the single-caller method may have been inlined into the line loop
+        fn = find_def(tree, 'SearchTask._run_search')
 
     def flush_ifs(f):
         return [n for n in ast.walk(f) if isinstance(n, ast.If)
@@ -424,9 +428,13 @@ def searchdef_run(tree):
     loops = [n for n in body if isinstance(n, ast.For)
              and ast.unparse(n.iter) == 'self.patterns']
     loop = _one(loops, "`for .. in self.patterns` in SearchDef.run")
-    brk = [n for n in loop.body if isinstance(n, ast.If)
-           and any(isinstance(x, ast.Break) for x in n.body)]
-    b = _one(brk, "`if ..: break` in the pattern loop")
+    brk = [n for n in loop.body if isinstance(n, ast.If) and not n.orelse
+           and n.body and (isinstance(n.body[-1], ast.Break) or
+                           isinstance(n.body[-1], ast.Return)
+                           and isinstance(n.test, ast.Name)
+                           and ast.unparse(n.body[-1].value) == n.test.id)]
+    b = _one(brk, "`if <match>: break` / `if <match>: return <match>` in "
+             "the pattern loop")
     if not isinstance(b.test, ast.Name):
         raise Untranslatable("SearchDef.run: the loop must break on the "
                              "truth of the match")
@@ -576,6 +584,125 @@ def task_init(tree):
         f"bool) : bool :=\n  {rcond}.\n")
 
 
+RUN_SEARCH_CFG = {
+    'locks': {},
+    'calls': {'self.stats.reset': 'stats_reset',
+              'self.constraints_manager.apply_global': 'apply_global',
+              'self.constraints_manager.apply_single': 'apply_single',
+              'line.decode': 'decode_line',
+              'self._sequence_search': 'sequence_search',
+              'self._process_sequence_results': 'process_sequences',
+              's_def.reset': 'seq_reset', 'enumerate': 'enumerate_lines',
+              # the body of _simple_search
+              'SearchResult': 'new_result',
+              'self.results_buffer.append': 'buffer_append',
+              'self._flush_results_buffer': 'flush'},
+    'cells': {}}
+
+
+def _tails(block):
+    """ statements in tail position of a block """
+    if not block:
+        return []
+    last = block[-1]
+    if isinstance(last, ast.If):
+        return _tails(last.body) + _tails(last.orelse)
+    return [last]
+
+
+class _Subst(ast.NodeTransformer):
+    def __init__(self, mapping):
+        self.mapping = mapping
+
+    def visit_Name(self, node):
+        if node.id in self.mapping:
+            return ast.copy_location(
+                ast.parse(self.mapping[node.id], mode='eval').body, node)
+        return node
+
+
+class _RetToContinue(ast.NodeTransformer):
+    def visit_Return(self, node):
+        if node.value is not None:
+            raise Untranslatable("_simple_search returns a value")
+        return ast.copy_location(ast.Continue(), node)
+
+    def visit_FunctionDef(self, node):      # nested defs keep their returns
+        return node
+
+
+def run_search_full(tree):
+    """ _run_search with the body of _simple_search in place of its call
+    (the call is in tail position of the per-definition loop body, so the
+    callee's early `return` is that loop's `continue`); if the method has
+    already been inlined by hand the function is taken as it is.  The result
+    is walked with the skeleton Walker. """
+    import copy
+    import skeleton
+    fn = copy.deepcopy(find_def(tree, 'SearchTask._run_search'))
+    klass = skeleton.class_of(tree, 'SearchTask._run_search')
+    callee = [n for n in klass.body if isinstance(n, ast.FunctionDef)
+              and n.name == '_simple_search']
+    run_names = {'s_def.run'}
+    if callee:
+        callee = callee[0]
+        loops = [n for n in ast.walk(fn) if isinstance(n, ast.For)]
+        site = None
+        for lp in loops:
+            for st in _tails(lp.body):
+                if isinstance(st, ast.Expr) and \
+                        isinstance(st.value, ast.Call) and \
+                        ast.unparse(st.value.func) == 'self._simple_search':
+                    if site is not None:
+                        raise Untranslatable("_simple_search called twice")
+                    site = (lp, st)
+        calls = [n for n in ast.walk(fn) if isinstance(n, ast.Call)
+                 and ast.unparse(n.func) == 'self._simple_search']
+        if site is None or len(calls) != 1:
+            raise Untranslatable("_run_search: expected exactly one call of "
+                                 "self._simple_search, in tail position of "
+                                 "a loop body")
+        params = [a.arg for a in callee.args.args][1:]
+        call = site[1].value
+        if len(call.args) != len(params) or call.keywords or \
+                callee.args.vararg or callee.args.kwarg:
+            raise Untranslatable("_simple_search: unexpected signature")
+        mapping = {p: ast.unparse(a) for p, a in zip(params, call.args)}
+        body = [st for st in copy.deepcopy(callee.body)
+                if not (isinstance(st, ast.Expr)
+                        and isinstance(st.value, ast.Constant))]
+        body = [_RetToContinue().visit(_Subst(mapping).visit(st))
+                for st in body]
+
+        class Put(ast.NodeTransformer):
+            def generic_visit(self, node):
+                for field in ('body', 'orelse', 'finalbody'):
+                    blk = getattr(node, field, None)
+                    if isinstance(blk, list) and site[1] in blk:
+                        i = blk.index(site[1])
+                        blk[i:i + 1] = body
+                return super().generic_visit(node)
+        fn = ast.fix_missing_locations(Put().visit(fn))
+    cfg = dict(RUN_SEARCH_CFG)
+    cfg['calls'] = dict(cfg['calls'])
+    # the definition's run(): whatever the loop variable is called
+    for n in ast.walk(fn):
+        if isinstance(n, ast.Call) and isinstance(n.func, ast.Attribute) \
+                and n.func.attr == 'run' and not n.keywords \
+                and len(n.args) == 1 and ast.unparse(n.args[0]) == 'line':
+            cfg['calls'][ast.unparse(n.func)] = 'def_run'
+    w = skeleton.Walker(cfg)
+    w.klass, w.module = None, None          # no further inlining
+    w.block(fn.body)
+    tree_txt = skeleton.to_tree(w.out)
+    flat = ";\n   ".join(skeleton.coq_ev(e) for e in w.out)
+    return ("(* SearchTask._run_search with SearchTask._simple_search "
+            "in place of its call *)\n"
+            "Definition tk_run_search_full : list stm :=\n  "
+            f"{tree_txt}.\n"
+            f"Definition sk_run_search_full : list ev :=\n  [{flat}].\n")
+
+
 ITEMS = [
     ('simple_flush_test', 'searchkit/task.py', simple_search),
     ('flush_expressions', 'searchkit/task.py', flush),
@@ -603,4 +730,15 @@ def generate(repo):
             "translator/plugins/task.py - do not edit *)\n"
             "From Coq Require Import ZArith Bool List.\nImport ListNotations.\n"
             "Open Scope Z_scope.\n\n" + "\n".join(parts))
+    # skeletons built by this plugin (string literals: own scope, last)
+    try:
+        sk = run_search_full(_parse(repo, 'searchkit/task.py', cache))
+        info['run_search_full'] = sk
+        text += ("\nFrom Coq Require Import String.\n"
+                 "From SK Require Import Model.Skel Model.Stm.\n"
+                 "Open Scope string_scope.\n\n" + sk)
+    except (Untranslatable, OSError, SyntaxError, AttributeError,
+            IndexError, TypeError, ValueError) as exc:
+        failed.append(("task:run_search_full",
+                       f"{type(exc).__name__}: {exc}"))
     return text, info, failed
